@@ -66,6 +66,8 @@ def spec_forest(c: Case, events: List[str]):
 
 
 def oracle_tree(c: Case, tr: Trace) -> Optional[str]:
+    if not c.cfg.tree:
+        return None          # the plain-parse twin of the case (see oracle_plain_factory)
     ok = tr.result.startswith('R 1')
     if not tr.tree:
         return "no tree report"
@@ -100,7 +102,7 @@ def oracle_containment(c: Case, tr: Trace) -> Optional[str]:
     """'children contained in and ordered within their parent', judged on the returned tree alone: below every node the
     children's spans are ordered (each begins at or after the end of the previous one, as far as that end is known) and lie
     within the node's span.  A node whose content was removed has no end: its children are only checked against its begin."""
-    if not tr.tree or not tr.result.startswith('R 1'):
+    if not c.cfg.tree or not tr.tree or not tr.result.startswith('R 1'):
         return None
     nodes = []
     for t in tr.tree[1:]:
@@ -144,6 +146,31 @@ def known_c12(c: Case, tr: Trace, oname: str, msg: str):
         return ('F20', "F20 parse tree: a node matched inside a succeeding at<> / not_at<> / rematch<> is not contained in its parent's span "
                        f"(e.g. grammar {c.g.gid}, input {c.data.hex() or '-'}: {msg})")
     return None
+
+
+def oracle_plain_factory():
+    """'a tree iff the plain parse succeeds', against the plain parse itself: every case is also run through tao::pegtl::parse with
+    the same actions and control (Config.tree = 0, first); the run through parse_tree::parse must end the same way — result, consumed
+    bytes, blamed rule — and make the same rule invocations and action calls."""
+    plain = {}
+
+    def oracle(c: Case, tr: Trace) -> Optional[str]:
+        key = (c.g.gid, c.cfg.root, c.data, c.cfg.a, c.cfg.m, c.cfg.unwind)
+        obs = (tr.result, [l for l in tr.events if l.split(' ', 1)[0] in ('E', 'X', 'ap', 'a0')])
+        if not c.cfg.tree:
+            plain[key] = obs
+            return None
+        ref = plain.get(key)
+        if ref is None:
+            return None
+        if ref[0] != obs[0]:
+            return f"plain parse ends with '{ref[0]}', parse_tree::parse with '{obs[0]}'"
+        if ref[1] != obs[1]:
+            k = next((j for j in range(min(len(ref[1]), len(obs[1]))) if ref[1][j] != obs[1][j]), min(len(ref[1]), len(obs[1])))
+            return (f"rule invocations / action calls differ between the plain parse and parse_tree::parse at event {k}: "
+                    f"'{ref[1][k] if k < len(ref[1]) else None}' vs '{obs[1][k] if k < len(obs[1]) else None}'")
+        return None
+    return oracle
 
 
 ORACLES = [('tree', oracle_tree), ('user-state', oracle_user_state), ('containment', oracle_containment)]
@@ -269,8 +296,9 @@ def deep_inputs(rng: random.Random, g: Grammar, tier: str):
 
 
 def run(tier: str) -> int:
-    cfg = lambda g, root, tier: [Config(root, 1, 'o', 'lf_crlf', 0, 1, 0, 1), Config(root, 1, 'o', 'lf_crlf', 0, 0, 0, 1)]
-    mk = lambda name, gen, inputs, **kw: engine.Profile(name, gen, cfg, inputs, ORACLES, compare_filter=keep_line, known=known_c12, **kw)
+    cfg = lambda g, root, tier: [Config(root, 1, 'o', 'lf_crlf', 0, 1, 0, 0), Config(root, 1, 'o', 'lf_crlf', 0, 1, 0, 1), Config(root, 1, 'o', 'lf_crlf', 0, 0, 0, 1)]
+    oracles = ORACLES + [('plain', oracle_plain_factory())]
+    mk = lambda name, gen, inputs, **kw: engine.Profile(name, gen, cfg, inputs, oracles, compare_filter=keep_line, known=known_c12, **kw)
 
     def sysgen(rng, tier):
         return corpus.systematic(rng, 'ts', lambda k, f: f != 'state', True, max_grammars=(22 if tier == 'quick' else 140),
